@@ -1,6 +1,7 @@
 """Property id -> check function."""
 import p_codec
 import p_session
+import p_stream
 
 CHECKS = {
     "C01": p_codec.check_C01,
@@ -17,6 +18,7 @@ CHECKS = {
     "C15": p_session.check_C15,
     "C19": p_session.check_C19,
     "C05": p_session.check_C05,
+    "C04": p_stream.check_C04,
 }
 
 
